@@ -733,6 +733,10 @@ class OrdinalNearestNeighbor(Ordinal):
         size: int = 1,
         random_state: Optional[np.random.RandomState] = None,
     ) -> Union[Any, List[Any]]:
+        if not self._more_than_one_category:
+            # Single value: ``_lower_int``, ``_upper_int`` are not defined
+            value = self.categories[0]
+            return [value] * size if size > 1 else value
         if random_state is None:
             random_state = np.random
         items = random_state.uniform(self._lower_int, self._upper_int, size=size)
